@@ -9,7 +9,7 @@ use rustc_hash::FxHashMap;
 use crate::{
     action::Action,
     key_code::KEY_MAX,
-    layout::{Event, Queue, Queued, QueuedAction},
+    layout::{Event, KCoord, Queue, Queued, QueuedAction},
 };
 
 // Macro to help with this boilerplate.
@@ -177,6 +177,13 @@ impl<'a, T> ChordsV2<'a, T> {
 
     pub fn chords(&self) -> &ChordsForKeys<'a, T> {
         &self.chords
+    }
+
+    /// The most recent event for the coordinate that is still waiting in the chords queue.
+    pub(crate) fn last_queued_event_chv2(&self, coord: KCoord) -> Option<Event> {
+        (self.queue.iter().rev())
+            .map(|q| q.event())
+            .find(|ev| ev.coord() == coord)
     }
 
     pub(crate) fn get_action_chv2(&mut self) -> QueuedAction<'a, T> {
